@@ -3,6 +3,7 @@ import json
 
 from core import vloop
 from . import l1
+from core.realdl import parts
 
 EXPECTED = ["C12_file_bound", "C12_per_url_bound", "C12_ten", "C12_only_own_urls", "C12_transient_absorbed"]
 LEVEL = "proof"
@@ -53,6 +54,7 @@ def one(chk, sc):
             got = [json.dumps(x, sort_keys=True) for x in real["downloaded"] + real["unmodified"]]
             if vj not in got and not shortcut_possible(sc, f):
                 viol.append(("transient-not-absorbed", f"{u}: {k} failures then success, but variant not obtained"))
+    viol += gave_up_early(sc, real, files)
     # schedule independence of request counts
     real2, _ = l1.run_real(sc, chooser=vloop.LifoChooser(), nthreads=8)
     if dict(real2["reqs"]) != dict(real["reqs"]):
@@ -72,6 +74,37 @@ def one(chk, sc):
         chk.violation("correspondence-requests", {"scenario": l1.scenario_to_json(sc), "disagreement": diffs,
                                                   "correspondence": "Model/Download.lean request log vs transport log"},
                       diffs[0], no_input=True)
+
+
+def gave_up_early(sc, real, files):
+    """"a file is given up once all its variants and alias URLs are exhausted": a required file that ends up not obtained
+    must have spent its ten tries on every URL of every variant (the requests of its own transfer task, answers that are
+    reconnect signals not counted); fewer means it was given up while tries were left"""
+    from collections import Counter
+    out = []
+    got = {json.dumps(x["path"]) for x in real["downloaded"] + real["unmodified"]}
+    per_task = {}
+    for uid, url, kind in real.get("task_log", []):
+        if kind != "retry":
+            per_task.setdefault(uid, Counter())[url] += 1
+    for f in files:
+        if f.ignore_errors or f.ignore_missing:
+            continue
+        vs = list(f.iter_variants())
+        if any(json.dumps(parts(v.path)) in got for v in vs) or shortcut_possible(sc, f):
+            continue
+        own = {str(v.path) for v in vs}
+        tasks = [uid for uid, c in per_task.items() if any(u in own for u in c)]
+        urls = [str(p) for v in vs for p in v.get_all_paths()]
+        if len(tasks) != 1:
+            if not tasks and urls:
+                out.append(("given-up-early", f"file {f.path} was not obtained although its own URL was never requested"))
+            continue
+        c = per_task[tasks[0]]
+        short = [(u, c.get(u, 0)) for u in urls if c.get(u, 0) < 10]
+        if short:
+            out.append(("given-up-early", f"file {f.path} not obtained, but its transfer made only {short[0][1]} of 10 tries on {short[0][0]}"))
+    return out
 
 
 def is_good(r, size):
@@ -138,7 +171,34 @@ def e2e_one(chk, sseed):
         w.destroy()
 
 
+def shared_one(chk, sseed):
+    """files that share a URL (byte-identical siblings with by-hash): the shared URL fails 10-17 times before it answers, the
+    canonical URLs are gone; every file has its own ten tries per URL, so a file may only be given up after ten tries of its
+    own on each of its URLs, however the siblings' attempts interleave"""
+    import random
+    from core.transport import Resp
+    rng = random.Random(sseed)
+    sc = l1.gen_shared_scenario(rng)
+    for k in list(sc["scripts"]):
+        if "/by-hash/" in k:
+            good = [r for r in sc["scripts"][k] if r.kind == "ok" and not r.abort][-1]
+            sc["scripts"][k] = [Resp(rng.choice(["error", "error", "missing"])) for _ in range(rng.randint(10, 17))] + [good] * 12
+        else:
+            sc["scripts"][k] = [Resp("missing") for _ in range(40)]
+    replay = dict(l1.scenario_to_json(sc), scenario_seed=sseed, shared_budget=True)
+    for kind in ("random", "fifo", "lifo"):
+        chooser = {"random": vloop.RandomChooser(rng.randrange(1 << 30)), "fifo": vloop.FifoChooser(), "lifo": vloop.LifoChooser()}[kind]
+        real, files = l1.run_real(sc, chooser=chooser, nthreads=rng.choice([2, 4]))
+        for sig, msg in gave_up_early(sc, real, files):
+            chk.violation(sig + ":shared-url", dict(replay, schedule=kind), msg)
+        chk.count("shared_url_budget_runs")
+    chk.evaluated(("shared-budget", len(sc["descs"])), sample={"shared_url": True, "files": len(sc["descs"])})
+    chk.traces += 3
+
+
 def run(chk, tier, rng):
+    for i in range(30 if tier == "quick" else 600):
+        shared_one(chk, f"C12S-{chk.seed}-{i}")
     n = 300 if tier == "quick" else 5000
     for i in range(n):
         sc = l1.gen_scenario(rng)
